@@ -268,4 +268,4 @@ def harnesses(world, tier, seed):
                                             'entry 2': 'owner {omitted,a,@} x {none,5,IN 9} x A|SOA'},
                 expected_classes=('rejected', 'plain', 'authoritative')),
     ]
-    return hs, (420 if q else 2400), None
+    return hs, (1500 if q else 5400), None
